@@ -14,7 +14,29 @@ from . import atoms
 from .ode_component import MyokitComponent
 from .ode import ODE
 
-reserved_names = {name for name in dir(sp) if not name.startswith("_")}
+# Names that cannot be used for a variable of a gotranx model: they mean
+# something else to sympy, in a .ode file (functions, keywords, the time
+# symbol) or in the generated code. Variables with such a name get a
+# trailing underscore when they are imported.
+_ode_language_names = {
+    "cos", "tan", "sin", "acos", "atan", "asin", "log", "ln", "sqrt", "exp",
+    "Abs", "abs", "floor", "Mod", "ContinuousConditional", "Conditional",
+    "Lt", "Gt", "Le", "Ge", "And", "Or", "Eq", "Not", "pi",
+    "states", "parameters", "expressions", "component", "ScalarParam",
+}  # fmt: skip
+
+
+def _generated_code_names() -> set[str]:
+    from .codegen import CCodeGenerator, PythonCodeGenerator
+
+    return set(PythonCodeGenerator.reserved_names) | set(CCodeGenerator.reserved_names)
+
+
+reserved_names = (
+    {name for name in dir(sp) if not name.startswith("_")}
+    | _ode_language_names
+    | _generated_code_names()
+) - {"time"}  # the variable bound to time keeps its name, see `_gotran_name`
 
 
 def _gotran_name(var: myokit.Variable) -> str:
@@ -22,7 +44,7 @@ def _gotran_name(var: myokit.Variable) -> str:
     if var.binding() == "time":
         return "time"
     name = var.uname()
-    if name in reserved_names:
+    if name in reserved_names or name == "time":
         name = f"{name}_"
     return name
 
